@@ -626,3 +626,24 @@ mod tests {
         assert_eq!(state.allocation_to_queue.len(), 0);
     }
 }
+
+#[cfg(feature = "verif")]
+impl RateLimiter {
+    /// Verification hook: pretend that `d` more time has passed since the last submission attempt.
+    pub fn verif_shift(&mut self, d: Duration) {
+        if let Some(t) = self.last_submission {
+            self.last_submission = Some(t.checked_sub(d).unwrap_or(t));
+        }
+    }
+
+    /// Verification hook: (delay level, submission fails, allocation fails, attempted before, delay of the level in ms)
+    pub fn verif_dump(&self) -> (usize, u64, u64, bool, u64) {
+        (
+            self.current_delay,
+            self.submission_fails,
+            self.allocation_fails,
+            self.last_submission.is_some(),
+            self.submission_delays[self.current_delay].as_millis() as u64,
+        )
+    }
+}
